@@ -1,6 +1,7 @@
 package main
 
 import (
+	"go/types"
 	"sort"
 	"strings"
 
@@ -261,19 +262,28 @@ func (a *sgrAnalyzer) step(fn *ssa.Function, ins ssa.Instruction, st sgrState) s
 	case "Write", "WriteString", "WriteByte", "WriteRune", "pcAppendByte", "pcAppendString", "pcAppendStringValue", "pcAppendRune":
 		if len(cc.Args) > 0 {
 			arg := cc.Args[len(cc.Args)-1]
-			text, isConst := "", false
+			var texts []string
 			if s, ok := constString(arg); ok {
-				text, isConst = s, true
+				texts = []string{s}
 			} else if v, ok := constInt(arg); ok {
-				text, isConst = string(rune(v)), true
-			}
-			if isConst {
-				a.nEv++
-				ns, bad := constEffect(text, st)
-				if bad {
-					a.note(fn, ins, "a line break is written while a colour may still be switched on")
+				texts = []string{string(rune(v))}
+			} else if a.mr.Blocks[fn] != nil {
+				// a value picked among constants (phi): each pick is an event
+				if ts, ok := a.mr.constTexts(arg, basicKindIsInt(arg)); ok {
+					texts = ts
 				}
-				return ns
+			}
+			if len(texts) > 0 {
+				a.nEv++
+				var out sgrState
+				for _, text := range texts {
+					ns, bad := constEffect(text, st)
+					if bad {
+						a.note(fn, ins, "a line break is written while a colour may still be switched on")
+					}
+					out |= ns
+				}
+				return out
 			}
 		}
 		if cal != nil && a.analysable(cal) && (name == "pcAppendString" || name == "pcAppendStringValue") {
@@ -349,4 +359,9 @@ func (a *sgrAnalyzer) reached(fn *ssa.Function, e sgrState) bool {
 		return true
 	}
 	return a.entries[fn]&e != 0
+}
+
+func basicKindIsInt(v ssa.Value) bool {
+	b, ok := v.Type().Underlying().(*types.Basic)
+	return ok && b.Info()&types.IsInteger != 0
 }
